@@ -31,7 +31,11 @@ EXPECTED = {
 
 # rules of sibling properties that are necessary conditions of this one too
 # (evaluated by the sibling module on the same graphs, reported under this property)
-ALSO = {'C16': {'R16.4': 'the same-volume verdict is established per argument, not remembered'}}
+ALSO = {'C01': {'R01.6': 'the entry whose volume was judged is the entry that is moved',
+         'R01.7': 'copy+delete only for EXDEV (and EXDEV only behind the home-fallback gate): '
+                  'never a silent cross-device copy for another reason'},
+ 'C18': {'R18.3': 'the path moved is the normalised argument the volume was computed for'},
+ 'C16': {'R16.4': 'the same-volume verdict is established per argument, not remembered'}}
 
 def enum_name(t):
     t = strip(t)
